@@ -67,6 +67,14 @@ func (vc *VC) script(o *Obl, extra *Term, goal *Term, withModel bool) string {
 				seen[is.Sym] = true
 			}
 		}
+		// values of *big.Int inputs
+		if _, ok := vc.declared[quoteSym("H0.Big.val")]; ok {
+			for _, is := range vc.inputSyms {
+				if is.BigInt {
+					fmt.Fprintf(&sb, "(select H0.Big.val %s) ", is.Sym)
+				}
+			}
+		}
 		// leading bytes of byte-slice inputs (for replay)
 		if _, ok := vc.declared[quoteSym("H0.Mem.u8")]; ok {
 			for _, is := range vc.inputSyms {
@@ -93,24 +101,37 @@ func runQuery(dir, base, script string, timeoutSec int, seed int) (status, solve
 		out    string
 		ms     int64
 	}
-	ch := make(chan ans, len(solvers))
-	start := time.Now()
+	type job struct {
+		name string
+		args []string
+	}
+	var jobs []job
 	for _, s := range solvers {
-		s := s
+		jobs = append(jobs, job{s.Name, s.Cmd(file, timeoutSec)})
+	}
+	// recursive spec functions: also race the define-fun-rec encoding (z3 only; cvc5 prefers the axioms)
+	if alt, ok := recVariant(script); ok {
+		file2 := filepath.Join(dir, base+".rec.smt2")
+		os.WriteFile(file2, []byte(alt), 0o644)
+		jobs = append(jobs, job{"z3-5.1/rec", solvers[0].Cmd(file2, timeoutSec)}, job{"z3-4.8/rec", solvers[1].Cmd(file2, timeoutSec)})
+	}
+	ch := make(chan ans, len(jobs))
+	start := time.Now()
+	for _, j := range jobs {
+		j := j
 		go func() {
-			args := s.Cmd(file, timeoutSec)
-			cmd := exec.CommandContext(ctx, args[0], args[1:]...)
+			cmd := exec.CommandContext(ctx, j.args[0], j.args[1:]...)
 			var out bytes.Buffer
 			cmd.Stdout = &out
 			cmd.Stderr = &out
 			cmd.Run()
-			ch <- ans{s.Name, out.String(), time.Since(start).Milliseconds()}
+			ch <- ans{j.name, out.String(), time.Since(start).Milliseconds()}
 		}()
 	}
 	outs = map[string]string{}
 	status = "unknown"
 	var satAns, unsatAns *ans
-	for range solvers {
+	for range jobs {
 		a := <-ch
 		first := strings.TrimSpace(strings.SplitN(a.out, "\n", 2)[0])
 		outs[a.solver] = first
